@@ -99,6 +99,7 @@ class AsyncIOClient(ABC):
         
         self._process_queue_task = asyncio.create_task(self._process_queue())  # Track the process queue task
         self._receive_task = None  # Track the receive loop task
+        self._reconnect_task = None  # Track the pending reconnect (at most one at a time)
 
 
     def set_status_callback(self, callback: Optional[Callable[[State], Awaitable[None]]]):
@@ -254,8 +255,18 @@ class AsyncIOClient(ABC):
             if self._state != State.CLOSED:
                 self.logger.error(f"Connection lost while reading. Error: {ex}. Reconnecting...", exc_info=True)
                 await self._update_state(State.DISCONNECTED)
-                asyncio.create_task(self._reconnect())
+                self._schedule_reconnect()
         self.logger.info("Received loop terminated")
+
+    def _schedule_reconnect(self):
+        """Start the reconnect task unless one is already waiting or connecting.
+
+        Every fault report (the receive loop, each failing send) asks for a reconnect; one task serves them
+        all, otherwise each of them would make its own attempt and the delay between attempts would shrink
+        with the number of senders.
+        """
+        if self._reconnect_task is None or self._reconnect_task.done():
+            self._reconnect_task = asyncio.create_task(self._reconnect())
 
     async def _reconnect(self):
         """Reconnect after a fault on an established link.
@@ -296,7 +307,7 @@ class AsyncIOClient(ABC):
             if self._state != State.CLOSED and (writer is None or writer is self.writer):
                 self.logger.error(f"Connection lost while sending. Error {ex}. Reconnecting...", exc_info=True)
                 await self._update_state(State.DISCONNECTED)
-                asyncio.create_task(self._reconnect())
+                self._schedule_reconnect()
 
     async def close(self):
         """Close the connection and terminate the client.
